@@ -5,7 +5,7 @@
    premises [status k = MgOptimal -> feasible k], [status k = MgInfeasible -> ~ feasible k]. *)
 From Coq Require Import List NArith ZArith QArith Bool Arith Lia.
 Import ListNotations.
-From FP Require Import Lin Blocks BlocksProofs PathEnc MiscEnc MiscEncProofs.
+From FP Require Import Lin Blocks BlocksProofs PathEnc MiscEnc MiscEncProofs MgsComplete.
 Local Open Scope Q_scope.
 
 (* rows/columns of MinGenSet._create_solver(k) => the Gen values are a multiset of size k of values in
@@ -24,12 +24,73 @@ Theorem C15_genset_rows_give_generating_multiset : forall (I : mgs_inst) (k : na
 Proof. exact mgs_sound_multiset. Qed.
 Print Assumptions C15_genset_rows_give_generating_multiset.
 
-(* PARTIAL: the converse (every sorted generating multiset of size k is admitted by the rows) is not proved.
-   What is proved towards it: the multiplicity's bit vector (sized from max(total, max_multiplicity), b959a54)
-   represents every value 0 .. max_multiplicity *)
+(* COMPLETENESS (partition constraints included): every generating multiset of size k -- in any order; integral when
+   weight_type = int; for every partition constraint each element put into exactly one of its parts with the part sums as
+   given (part_ok_strict) -- is carried by a satisfying assignment of the rows of _create_solver(k).  The only side
+   condition is max_multiplicity >= 1; nothing is needed about the numbers or the total (they are sums of the elements). *)
 Definition C15_genset_rows_complete_full_statement : Prop := forall (I : mgs_inst) (k : nat) (g : list Q),
-  (1 <= mg_mult I)%nat -> mg_parts I = None -> length g = k -> genset (mg_mult I) (mg_numbers I) (mg_total I) g ->
+  (1 <= mg_mult I)%nat -> length g = k ->
+  genset (mg_mult I) (mg_numbers I) (mg_total I) g /\ (mg_int I = true -> Forall is_int g) /\
+  Forall (part_ok_strict g) (parts_of I) ->
   exists a, sat a (encode_mgs I k).
+Theorem C15_genset_rows_complete : C15_genset_rows_complete_full_statement.
+Proof. exact mgs_enc_complete. Qed.
+Print Assumptions C15_genset_rows_complete.
+
+(* hence, without partition constraints: the model for k is satisfiable exactly when a generating multiset of size k exists *)
+Theorem C15_model_feasible_iff_generating_multiset : forall (I : mgs_inst) (k : nat), mg_parts I = None -> (1 <= mg_mult I)%nat ->
+  ((exists a, sat a (encode_mgs I k)) <-> exists g, length g = k /\ genset_for I g).
+Proof. exact mgs_feasible_iff. Qed.
+Print Assumptions C15_model_feasible_iff_generating_multiset.
+
+(* generating multisets do not depend on the order of the elements (used to sort g for the symmetry rows) *)
+Theorem C15_genset_permutation_invariant : forall (m : nat) (numbers : list Q) (total : Q) (g g' : list Q),
+  Permutation.Permutation g g' -> genset m numbers total g -> genset m numbers total g'.
+Proof. exact genset_perm. Qed.
+Print Assumptions C15_genset_permutation_invariant.
+
+(* pre-processing keeps exactly the generating multisets of the caller's numbers *)
+Theorem C15_preprocess_preserves_generating_multisets : forall (rm : bool) (mult : nat) (numbers : list Q) (total : Q) (g : list Q),
+  (1 <= mult)%nat -> (genset mult (mgs_preprocess rm mult numbers total) total g <-> genset mult numbers total g).
+Proof. exact genset_preprocess_iff. Qed.
+Print Assumptions C15_preprocess_preserves_generating_multisets.
+
+(* MinGenSet.solve returns a MINIMUM (relative to the solver specification, no partition constraints): the reported size k
+   has a generating multiset and no size in lowerbound .. k-1 has one *)
+Theorem C15_mgs_returns_minimum : forall (I : mgs_inst) (status : nat -> mstatus),
+  mg_parts I = None -> (1 <= mg_mult I)%nat ->
+  (forall k, status k = MgOptimal -> exists a, sat a (encode_mgs I k)) ->
+  (forall k, status k = MgInfeasible -> forall a, ~ sat a (encode_mgs I k)) ->
+  forall lb n extra tried k, mgsm_loop status lb n extra = (tried, Some k) ->
+  (exists g, length g = k /\ genset_for I g) /\ (lb <= k)%nat /\
+  forall k' g, (lb <= k' < k)%nat -> length g = k' -> ~ genset_for I g.
+Proof. exact mgs_returns_minimum. Qed.
+Print Assumptions C15_mgs_returns_minimum.
+
+(* with partition constraints: the reported size carries a generating multiset; no smaller size from the lower bound on
+   has a generating multiset meeting the partition constraints *)
+Theorem C15_mgs_returns_minimum_with_partition_constraints : forall (I : mgs_inst) (status : nat -> mstatus),
+  (1 <= mg_mult I)%nat ->
+  (forall k, status k = MgOptimal -> exists a, sat a (encode_mgs I k)) ->
+  (forall k, status k = MgInfeasible -> forall a, ~ sat a (encode_mgs I k)) ->
+  forall lb n extra tried k, mgsm_loop status lb n extra = (tried, Some k) ->
+  (exists g, length g = k /\ genset (mg_mult I) (mg_numbers I) (mg_total I) g /\ (mg_int I = true -> Forall is_int g)) /\ (lb <= k)%nat /\
+  forall k' g, (lb <= k' < k)%nat -> length g = k' -> ~ genset_for I g.
+Proof. exact mgs_returns_minimum_parts. Qed.
+Print Assumptions C15_mgs_returns_minimum_with_partition_constraints.
+
+(* ... and it does return one whenever a size of the searched range has a generating multiset and the solver is conclusive *)
+Theorem C15_mgs_solves_when_possible : forall (I : mgs_inst) (status : nat -> mstatus),
+  mg_parts I = None -> (1 <= mg_mult I)%nat ->
+  (forall k, status k = MgInfeasible -> forall a, ~ sat a (encode_mgs I k)) ->
+  forall lb n extra, (forall k, status k = MgOptimal \/ status k = MgInfeasible) ->
+  (exists k g, In k (mgsm_range lb n extra) /\ length g = k /\ genset_for I g) ->
+  exists tried k, mgsm_loop status lb n extra = (tried, Some k).
+Proof. exact mgs_solves_when_possible. Qed.
+Print Assumptions C15_mgs_solves_when_possible.
+
+(* towards completeness: the multiplicity's bit vector (sized from max(total, max_multiplicity), b959a54)
+   represents every value 0 .. max_multiplicity *)
 Theorem C15_multiplicity_bits_suffice : forall I : mgs_inst, 0 <= mg_total I ->
   (Z.of_nat (mg_mult I) < 2 ^ Z.of_nat (num_bits (prod_ub I)))%Z.
 Proof. exact mgs_bits_suffice. Qed.
@@ -195,6 +256,11 @@ Proof.
 Qed.
 Example C15_nonvacuous_preprocess : mgs_preprocess true 1 [1; 6; 3; 4; 3; 7; 0] 7 = [1; 3] /\ mgs_preprocess true 2 [1; 6; 3; 4; 3; 7; 0] 7 = [1; 6; 4; 3].
 Proof. split; vm_compute; reflexivity. Qed.
+(* completeness is not vacuous: an unsorted generating multiset with a multiplicity 2 (bit-expansion rows) is admitted *)
+Example C15_nonvacuous_complete : genset_for ex_complete_inst [3 # 4; 1 # 4] /\ exists a, sat a (encode_mgs ex_complete_inst 2).
+Proof. split; [exact ex_complete_genset|exact ex_complete_sat]. Qed.
+Example C15_nonvacuous_complete_with_partition_constraints : genset_for ex_parts_inst [2; 1; 2; 1] /\ exists a, sat a (encode_mgs ex_parts_inst 4).
+Proof. split; [exact ex_parts_genset|exact ex_parts_sat]. Qed.
 (* a satisfiable MinSetCover model *)
 Example C15_nonvacuous_setcover : exists m, encode_msc {| sc_universe := [1; 2; 3]%N; sc_subsets := [[1; 2]; [2; 3]; [3]]%N; sc_weights := Some [1; 1; 1] |} = Some m /\
   sat (fun v => match vidx v with [i] => if (i =? 2)%N then 0 else 1 | _ => 0 end) m.
